@@ -32,7 +32,8 @@ GENERATOR = {
 ASSUMPTIONS = [
     "the scalar reference is the same correlation called with float(p[k]); for Fluid methods that "
     "only accept iterables it is the method called with a one-element float64 array",
-    "tolerance 256 eps of the floating type involved (float32 input -> float32 eps), plus 4 eps64 "
+    "tolerance 256 eps of the floating type involved (float32 and uint16 input -> float32 eps: numpy's "
+    "transcendental functions return float32 for 16-bit integers), plus 4 eps64 "
     "absolute scale of the result",
 ]
 
@@ -79,7 +80,9 @@ def generate(ck):
     k = 0
     for i in range(n):
         fn = FUNCS[i % len(FUNCS)]
-        dtype = ["f8", "i8", "f4", "i4"][(i // len(FUNCS)) % 4]
+        # (unsigned 64 / 32-bit integers too; 16-bit integers are outside the property's list and p**2 wraps
+        # around in them from 256 psia on - seen while widening, not claimed)
+        dtype = ["f8", "i8", "f4", "i4", "u8", "f8", "u4", "i8"][(i // len(FUNCS)) % 8]
         layout = str(rng.choice(["contig", "contig", "strided", "reversed", "fortran-slice"]))
         oilp = wl.oil_params(rng)
         pb = wl.bubblepoint(*oilp)
@@ -113,8 +116,10 @@ def generate(ck):
             # every occurrence is an element like any other
             for _ in range(int(rng.integers(1, 4))):
                 p[int(rng.integers(0, length))] = p[int(rng.integers(0, length))]
-        if dtype in ("i8", "i4"):
+        if dtype in ("i8", "i4", "u8", "u4", "u2"):
             p = np.round(p)
+            if dtype == "u2":
+                p = np.minimum(p, 65000.0)
             if length >= 2 and fn in OILY:
                 # integer neighbours of the bubble point on both sides
                 p[0] = np.floor(pb)
@@ -243,7 +248,7 @@ def run_case(ck, desc):
             ck.violation("same-shape", {"fn": desc["fn"], "n": n_long, "got": list(out_l.shape), "dtype": str(out_l.dtype)}, desc)
             return True, None
         idx = np.unique(np.concatenate([[0, 1, n_long - 2, n_long - 1], rng_.integers(0, n_long, 120)]))
-        eps_l = np.finfo(np.float32 if desc["dtype"] == "f4" else float).eps
+        eps_l = np.finfo(np.float32 if desc["dtype"] in ("f4", "u2") else float).eps
         for k in idx:
             ref = float(sc_call(float(arr[k])))
             if not ck.margin(f"elementwise (arrays of {n_long // 1000}k elements)", abs(float(out_l[k]) - ref), 256 * eps_l * abs(ref) + 1e-300):
@@ -272,7 +277,8 @@ def run_case(ck, desc):
     if out.shape != view.shape:
         ck.violation("same-shape", {"got": list(out.shape), "want": list(view.shape)}, desc)
         return False, {"shape": list(out.shape)}
-    eps = float(np.finfo(np.float32 if desc["dtype"] == "f4" else np.float64).eps)
+    # (numpy's own floating companion of a 16-bit integer is float32: np.log(uint16 array) is float32)
+    eps = float(np.finfo(np.float32 if desc["dtype"] in ("f4", "u2") else np.float64).eps)
     worst = 0.0
     refs = []
     for k in range(view.shape[0]):
